@@ -110,6 +110,9 @@ package registry
 //@   property C10
 //@   loop 101 invariant !hasEndpoints && (forall k string :: !seen(k))
 //@   ensures res ==> (exists u string :: idx(r, modelName, u))
+// and the converse wherever the answer is taken from the index (not on the empty-name / cancelled-context exits)
+//@   at return 3 assert !(exists u string :: idx(r, modelName, u))
+//@   at return 5 assert hasEndpoints <==> (exists u string :: idx(r, modelName, u))
 
 //@ func (r *MemoryModelRegistry) GetStats
 //@   property C10
